@@ -22,7 +22,11 @@ func (fr *Frame) execCall(st *State, in ssa.Instruction, cc *ssa.CallCommon) *Va
 	}
 	var args []*Val
 	for _, a := range cc.Args {
-		args = append(args, fr.get(st, a))
+		v := fr.get(st, a)
+		if escapingElemPtr(v) {
+			efail("pointer to a struct element of a slice passed to a call (not supported by the struct-of-arrays model)")
+		}
+		args = append(args, v)
 	}
 	sig := cc.Signature()
 	if cc.IsInvoke() {
@@ -197,6 +201,7 @@ func (fr *Frame) unknownCall(st *State, in ssa.Instruction, what string, sig *ty
 	fr.havocAll(st)
 	fr.restoreLocked(pre, st)
 	fr.restoreCaptured(pre, st)
+	fr.restorePrivate(pre, st)
 	fr.bumpAlloc(st)
 	return resultVal(sig, fr.freshResults(st, sig, "unk"))
 }
@@ -319,6 +324,7 @@ func (fr *Frame) applyContract(st *State, in ssa.Instruction, ct *Contract, sig 
 			if l.mapName == "*" {
 				fr.restoreLocked(pre, st)
 				fr.restoreCaptured(pre, st)
+				fr.restorePrivate(pre, st)
 			}
 		}
 	}
@@ -540,7 +546,7 @@ func (fr *Frame) execBuiltin(st *State, in ssa.Instruction, b *ssa.Builtin, cc *
 	case "copy":
 		return fr.execCopy(st, args[0], args[1], cc.Args[1].Type(), rt)
 	case "delete":
-		fr.guardCheck(st, in, args[0].Guard, true, "delete")
+		fr.guardCheckC(st, in, args[0].Guard, true, "delete", args[0].X)
 		mt := cc.Args[0].Type().Underlying().(*types.Map)
 		c.mapDelete(st, args[0].X, mt, args[1])
 		return &Val{K: VTuple}
@@ -579,9 +585,6 @@ func (fr *Frame) execAppend(st *State, in ssa.Instruction, s, more *Val, rt type
 	et := elemTypeOf(rt)
 	if isStringType(more.T) || more.K != VSlice {
 		efail("append(…, string...) not supported")
-	}
-	if _, isStruct := et.Underlying().(*types.Struct); isStruct && !isOpaque(et) {
-		efail("append on struct slices not supported")
 	}
 	h := Heap{st: st, log: curLog}
 	newLen := Add(s.Len, more.Len)
@@ -1430,4 +1433,31 @@ func (fr *Frame) restoreCaptured(pre, st *State) {
 		}()
 	}
 	c.trusted["captured variables of the verified function literal are not assigned by its callees"] = true
+}
+
+// restorePrivate: locations declared `private` in the contract of the function being verified
+// (typically the backing array of a table detached from a shared structure) are not reachable by
+// anybody else, so a callee's havoc-all leaves them unchanged (assumption, listed in the evidence).
+func (fr *Frame) restorePrivate(pre, st *State) {
+	c := fr.c
+	top := c.top
+	if top == nil || top.contract == nil || len(top.contract.Private) == 0 || fr != top {
+		return
+	}
+	env := top.envAt(pre)
+	for _, pe := range top.contract.Private {
+		locs, err := env.evalLocs(pe)
+		if err != nil {
+			continue // e.g. the local holding the private copy is not yet defined on this path
+		}
+		for _, loc := range locs {
+			if loc.ref == nil || loc.mapName == "*" {
+				continue
+			}
+			cur := st.hget(loc.mapName, loc.sort)
+			old := pre.hget(loc.mapName, loc.sort)
+			st.hset(loc.mapName, Store(cur, loc.ref, Select(old, loc.ref)))
+		}
+		c.trusted["private location (no other reference exists; unchanged by callees): "+pe.String()+" in "+shortFn(top.fn.RelString(nil))] = true
+	}
 }
